@@ -218,9 +218,18 @@ func runCheck(p *vc.Program, prop, tier string) int {
 	var samples []map[string]interface{}
 	knownCount := 0
 	seenNow := map[string]bool{}
+	type slowRec struct {
+		name string
+		sec  float64
+		by   string
+	}
+	var slow []slowRec
 	for _, r := range results {
 		ob := r.Ob
 		solverSeconds += r.Ans.Seconds
+		if !ob.Cover && r.Ans.Seconds >= 5 {
+			slow = append(slow, slowRec{ob.Name, r.Ans.Seconds, r.Ans.Solver})
+		}
 		if ob.Cover {
 			covers++
 			if r.Ans.Status == solve.Unsat && strings.Contains(ob.Name, "/cover#pre") {
@@ -363,6 +372,11 @@ func runCheck(p *vc.Program, prop, tier string) int {
 		assumptions = append(assumptions, "A-real: machine arithmetic treated as mathematical in "+f)
 	}
 	assumptions = append(assumptions, uniqS(notes)...)
+	sort.Slice(slow, func(i, j int) bool { return slow[i].sec > slow[j].sec })
+	slowList := []map[string]interface{}{}
+	for _, sr := range slow {
+		slowList = append(slowList, map[string]interface{}{"obligation": sr.name, "seconds": round3(sr.sec), "solver": sr.by})
+	}
 	cov := map[string]interface{}{
 		"obligations":              total,
 		"discharged":               discharged,
@@ -380,6 +394,7 @@ func runCheck(p *vc.Program, prop, tier string) int {
 		"known_findings":           knownCount,
 		"ledger_obligations_absent_now": len(vanished),
 		"samples":                  samples,
+		"slow_obligations_5s":      slowList,
 		"exhaustive":               false,
 	}
 	ev := evidence{PropertyID: prop, Tier: tier, Seed: seed, Level: "proof", Coverage: cov, Assumptions: assumptions,
